@@ -547,6 +547,32 @@ def gen_state_probes(g, tier, with_decode=False):
                     g.add("proc %s %s %s" % (cid, hx(q), hx(g.buf(64))), "state:response")
 
 
+def gen_sweeps(g, verb="dec", n_templates=6):
+    """thorough tier: exhaustive two-byte sweeps (65 536 variants each, PEC re-fixed) over pairs of
+    header / control positions of valid packets, compared by digest"""
+    r = g.r
+    templ = [forge(0x23, 0x34, 0x23, 0x34, 0, ctrl_req(1, [0, 9])),
+             forge(0x23, 0x34, 0x23, 0x34, 0, ctrl_req(6, [0])),
+             forge(0x23, 0x34, 0x23, 0x34, 0, ctrl_resp(3, 0, g.rbytes(16))),
+             forge(0x23, 0x34, 0x23, 0x34, 0, ctrl_resp(1, 0, [0, 9, 0])),
+             forge(0x23, 0x34, 0x23, 0x34, 0x7E, g.rbytes(4)),
+             forge(0x23, 0x34, 0x23, 0x34, 0, ctrl_req(2, []))][:n_templates]
+    pairs = [(4, 8), (8, 9), (9, 10), (10, 11), (9, 11), (11, 12), (4, 10), (8, 10)]
+    if verb == "dec":
+        for p in templ:
+            for (i, j) in pairs:
+                if j < len(p) - 1:
+                    g.add("decsweep %s %d %d fix" % (hx(p), i, j), "sweep:%d,%d" % (i, j))
+            g.add("decsweep %s %d %d stale" % (hx(p), 10, len(p) - 1), "sweep:cmd,pec")
+            g.add("decsweep %s %d %d stale" % (hx(p), 8, len(p) - 1), "sweep:type,pec")
+    else:
+        cid = g.ctx(0x23, [0x7E, 0x01], g.rand_vendors(3))
+        for p in templ[:3]:
+            for (i, j) in ((10, 11), (9, 10), (11, 12)):
+                if j < len(p) - 1:
+                    g.add("procsweep %s %s %d %d %s" % (cid, hx(p), i, j, hx([0x5A] * 64)), "procsweep:%d,%d" % (i, j))
+
+
 def gen_responses(g, tier):
     """responses written by process_packet are encoded packets too (C03, C04, C05): answerable
     requests with every instance id, before and after an EID was assigned"""
@@ -616,6 +642,8 @@ def gen_for(prop, tier, seed):
     elif prop in ("C09",):
         gen_decode_families(g, tier, "dec")
         gen_state_probes(g, tier, with_decode=True)
+        if T:
+            gen_sweeps(g, "dec")
     elif prop == "C10":
         ctxs = gen_decode_families(g, tier, "dec")
         gen_decode_families(g, tier, "proc", ctxs=ctxs)
@@ -630,6 +658,9 @@ def gen_for(prop, tier, seed):
             g.add("len %s" % hx([g.rb(), v, g.rb()] + g.rbytes(r.randrange(3))), "len-command")
             g.add("len %s" % hx([v, 0x0F, r.choice([0, 0xFB, 0xFC, 0xFF])] + g.rbytes(2)), "len-addr")
         gen_state_probes(g, tier, with_decode=True)
+        if T:
+            gen_sweeps(g, "dec")
+            gen_sweeps(g, "proc")
         # every selector / operation value on a validly configured context
         cid = g.ctx(0x42, [0x7E, 0x7F], g.rand_vendors(3))
         for v in range(256):
@@ -641,6 +672,8 @@ def gen_for(prop, tier, seed):
         gen_decode_families(g, "quick", "proc", ctxs=ctxs)
         gen_bursts(g, tier, "dec", ctxs)
         gen_bursts(g, "quick", "proc", ctxs)
+        if T:
+            gen_sweeps(g, "dec", n_templates=3)
         # a forged Set EID with a wrong PEC, then observe the EID
         for _ in range(200 if T else 40):
             cid = g.ctx(g.rb(), [], [(0, 1, 1)])
@@ -658,6 +691,8 @@ def gen_for(prop, tier, seed):
             return [r2.randrange(256) for _ in range(n)]
         gen_decode_families(g, tier, "proc", proc_buf=pb)
         gen_state_probes(g, tier)
+        if T:
+            gen_sweeps(g, "proc")
     elif prop == "C12":
         gen_state_probes(g, tier)
         resp_cfgs = [(0x23, [0x7E], [(0, 0x1234, 0xAB)]), (0x7F, g.rbytes(30), g.rand_vendors(4)),
